@@ -125,16 +125,27 @@ func run(raw json.RawMessage) (common.Case, error) {
 	eps := make([]receive.Endpoint, len(in.Endpoints))
 	pos := map[string]int{}
 	azID := map[string]int64{}
+	// The model sees every distinct endpoint once (first occurrence): the
+	// implementation deduplicates the nodes of the base ring, and a repeated
+	// endpoint only repeats sections with identical hashes and identity.
+	var distinct []endpoint
+	hasDup := false
 	for i, e := range in.Endpoints {
 		eps[i] = receive.Endpoint{Address: e.Addr, AZ: e.AZ}
-		if _, dup := pos[e.Addr]; dup {
-			return c, fmt.Errorf("duplicate address %q (not supported by this harness: section hashes would collide)", e.Addr)
+		if j, dup := pos[e.Addr]; dup {
+			if distinct[j].AZ != e.AZ {
+				return c, fmt.Errorf("address %q listed with two different zones (not supported by this harness)", e.Addr)
+			}
+			hasDup = true
+			continue
 		}
-		pos[e.Addr] = i
+		pos[e.Addr] = len(distinct)
+		distinct = append(distinct, e)
 		if _, ok := azID[e.AZ]; !ok {
 			azID[e.AZ] = int64(len(azID))
 		}
 	}
+	in.Endpoints = distinct
 	cfg := receive.ShuffleShardingConfig{ShardSize: in.ShardSize, CacheSize: in.CacheSize, ZoneAwarenessDisabled: in.Disabled}
 	strID := map[string]int64{}
 	sid := func(s string) int64 {
@@ -243,6 +254,13 @@ func run(raw json.RawMessage) (common.Case, error) {
 		s1, p1 := optNodes(n1, e1, pos)
 		s2, _ := optNodes(n2, e2, pos)
 		s3, _ := optNodes(n3, e3, pos)
+		if e1 == nil {
+			for k := 1; k < len(p1); k++ {
+				if p1[k] == p1[k-1] && c.GoPred == "" {
+					c.GoPred, c.Sig = "the tenant's shard contains the same node twice (fewer distinct nodes than configured)", "duplicate-node-in-shard"
+				}
+			}
+		}
 		if s1 != s2 || s1 != s3 {
 			c.GoPred, c.Sig = "the tenant's sub-ring differs between first, repeated and uncached computation", "unstable-shard"
 		}
@@ -306,6 +324,9 @@ func run(raw json.RawMessage) (common.Case, error) {
 		mode = "zone-unaware"
 	}
 	c.Class = fmt.Sprintf("%s/%s/zones=%d", in.Via, mode, len(azID))
+	if hasDup {
+		c.Class += "/dup-endpoint"
+	}
 	// non-trivial: a proper sub-ring (fewer nodes than the base ring) was computed for some tenant
 	c.Nontrivial = sized && in.ShardSize < len(in.Endpoints)
 	return c, nil
